@@ -193,6 +193,8 @@ def run_property(pid, cfg, tier, seed, jobs, update_ledger, t0):
     nat_fail = (nat or {}).get('failures') or []
     if nat and nat.get('error'):
       crashes.append((tgt, 'native harness error: ' + nat['error']))
+    if nat and not nat.get('error') and nat.get('cases', 0) == 0:
+      crashes.append((tgt, f"vacuity guard: native contract evaluation ran 0 cases ({nat.get('skipped')} skipped by the precondition)"))
     # 1. real failing inputs
     unknown_fail = []
     for f in nat_fail:
